@@ -403,10 +403,11 @@ func runC13(c *Ctx) {
 		c.Floor("O3", "REG registered handlers", nreg, 4)
 	}
 	firesKind := func(fn *ssa.Function) string {
-		if len(instrsIn(fn, handlerFire("AllocateFunc"))) > 0 {
+		// (directly, or through a notification helper split off the operation)
+		if len(instrsIn(fn, p.performs(handlerFire("AllocateFunc"), 2))) > 0 {
 			return "AllocateFunc"
 		}
-		if len(instrsIn(fn, handlerFire("DeallocateFunc"))) > 0 {
+		if len(instrsIn(fn, p.performs(handlerFire("DeallocateFunc"), 2))) > 0 {
 			return "DeallocateFunc"
 		}
 		return ""
@@ -542,13 +543,13 @@ func runC13(c *Ctx) {
 			continue
 		}
 		c.Analysed(funcKey(e.fn))
-		fires := len(instrsIn(e.fn, handlerFire(e.fire))) > 0
-		wrong := len(instrsIn(e.fn, handlerFire(e.notFire))) > 0
+		fires := len(instrsIn(e.fn, p.performs(handlerFire(e.fire), 2))) > 0
+		wrong := len(instrsIn(e.fn, p.performs(handlerFire(e.notFire), 2))) > 0
 		c.Check(fires && !wrong, "O4", "MPT", funcKey(e.fn)+": fires "+e.fire, e.fn.Pos(), "fires every "+e.fire+" and no "+e.notFire, fmt.Sprintf("plugin handlers are fired with the wrong polarity (fires %s=%v, fires %s=%v): queue usage kept by the plugins diverges from the pods", e.fire, fires, e.notFire, wrong))
 		// every nil-returning path passes the handler loop header (the range over the handlers)
-		for _, hi := range instrsIn(e.fn, handlerFire(e.fire)) {
+		for _, hi := range instrsIn(e.fn, p.performs(handlerFire(e.fire), 2)) {
 			h := loopHeaderOf(hi.Block())
-			if h == nil {
+			if h == nil && handlerFire(e.fire)(hi) {
 				continue
 			}
 			// the fire must not be guarded by anything except "handler != nil" inside the loop
@@ -561,7 +562,7 @@ func runC13(c *Ctx) {
 					continue
 				}
 				delegating := p.performs(handlerFire(e.fire), 4)
-				_, path, found := reachAvoiding([]cfgPos{entryPos(e.fn)}, func(in ssa.Instruction) bool { return in == ssa.Instruction(ret) }, func(in ssa.Instruction) bool { return in.Block() == h || delegating(in) }, nil)
+				_, path, found := reachAvoiding([]cfgPos{entryPos(e.fn)}, func(in ssa.Instruction) bool { return in == ssa.Instruction(ret) }, func(in ssa.Instruction) bool { return (h != nil && in.Block() == h) || delegating(in) }, nil)
 				c.Check(!found, "O4", "MPT", fmt.Sprintf("%s: success return at block %d passes the %s loop", funcKey(e.fn), b.Index, e.fire), instrPos(ret), "handlers fired on every successful path", "a successful path skips the plugin handlers ("+pathStr(path)+")")
 			}
 		}
